@@ -1,6 +1,7 @@
 import FormulaeModel.Proofs.ProductOrder
 import FormulaeModel.Proofs.Indicator
 import FormulaeModel.Spec.C04
+import FormulaeModel.Properties.Bridge
 /-
 C04 — property theorems about the evaluation model (Model/Design.lean, Model/Matrices.lean).
 -/
